@@ -8,10 +8,10 @@ def sh(cmd, cwd=None, env=None):
     r = subprocess.run(cmd, shell=True, cwd=cwd, capture_output=True, text=True, env=env)
     return r.returncode, r.stdout + r.stderr
 def run_prop(prop, variants):
-    wt = os.environ.get("SEED_WT_ROOT", "/tmp/seed") + "/" + prop
     out = []
     for v in variants:
         sid = prop + v
+        wt = os.environ.get("SEED_WT_ROOT", "/tmp/seed2" if v in "cd" else "/tmp/seed") + "/" + prop
         d = os.path.join(V, "seeded", sid)
         sh("git reset -q; git checkout -- . ; git clean -fdq -e target", wt)
         rc, o = sh("git apply %s/patch.diff" % d, wt)
